@@ -56,6 +56,13 @@ theorem raw_print_needs_optout (sf ae : Bool) (v : V) (h : printed sf ae v ≠ e
     · exact absurd (printed_text_is_escaped sf ae v (Or.inl hs) ho) h
     · exact absurd (printed_text_is_escaped sf ae v (Or.inl hs) ho) h
 
+/-- `firstof` escapes whatever it prints — any kind of value, also one Go code marked safe — unless
+    the argument carries the `safe` filter or autoescape is off -/
+theorem firstof_is_escaped (sf ae : Bool) (v : V) (h : sf = false ∧ ae = true) :
+    firstofText sf ae v = escapeHtml v.v.toS ∧ ∀ c ∈ firstofText sf ae v, c ∉ C17.specials := by
+  have : firstofText sf ae v = escapeHtml v.v.toS := by simp [firstofText, h.1, h.2]
+  exact ⟨this, by rw [this]; exact C17.escape_no_special _⟩
+
 /-- escaping is piecewise: printing a text in pieces (looping over its characters, printing the
     halves of a concatenation) gives the escape of the whole -/
 theorem escape_append (a c : Bytes) : escapeHtml (a ++ c) = escapeHtml a ++ escapeHtml c := by
